@@ -235,3 +235,162 @@ def gen_config(rng, N, nmax=5):
         s.update(op="config", deg=d, q=q, queries=queries)
         out.append(s)
     return out
+
+
+# ----------------------------------------------------------------------------- algorithm scenarios
+
+def gen_dhar(rng, N, nmax=6):
+    out = []
+    for _ in range(N):
+        g, E = gen.gen_graph(rng, 2, nmax)
+        n = g["n"]
+        d, band, debt = gen.gen_divisor(rng, n, g["_genus"], mag=rng.choice([3, 5]))
+        s = dict(g)
+        s.update(op="dhar", deg=d, q=rng.randrange(n), viz=(rng.random() < 0.2), _band=band, _debt=debt)
+        out.append(s)
+    return out
+
+
+def gen_api(rng, N, nmax=6):
+    out = []
+    for _ in range(N):
+        g, E = gen.gen_graph(rng, 2, nmax)
+        n = g["n"]
+        d, band, debt = gen.gen_divisor(rng, n, g["_genus"], mag=rng.choice([3, 5]))
+        s = dict(g)
+        s.update(op="api", deg=d, _band=gen.band_of(sum(d), g["_genus"]), _debt=debt)
+        out.append(s)
+    return out
+
+
+def random_script(rng, n, mag=3):
+    return [rng.randint(-mag, mag) for _ in range(n)]
+
+
+def apply_script(n, E, d, s):
+    adj = [[0] * n for _ in range(n)]
+    for (a, b), m in E.items():
+        adj[a][b] += m
+        adj[b][a] += m
+    return [d[w] - sum(adj[w][v] * (s[w] - s[v]) for v in range(n)) for w in range(n)]
+
+
+def gen_lin_equiv(rng, N, nmax=6):
+    out = []
+    for _ in range(N):
+        g, E = gen.gen_graph(rng, 2, nmax)
+        n = g["n"]
+        d1, _, _ = gen.gen_divisor(rng, n, g["_genus"], mag=4)
+        kind = rng.choice(["identical", "script", "script", "samedeg", "samedeg", "diffdeg"])
+        if kind == "identical":
+            d2 = list(d1)
+        elif kind == "script":
+            d2 = apply_script(n, E, d1, random_script(rng, n))
+        elif kind == "samedeg":
+            d2 = list(d1)
+            for _ in range(rng.randint(1, 3)):
+                a, b = rng.randrange(n), rng.randrange(n)
+                d2[a] += 1
+                d2[b] -= 1
+            if rng.random() < 0.5:
+                d2 = apply_script(n, E, d2, random_script(rng, n))
+        else:
+            d2 = list(d1)
+            d2[rng.randrange(n)] += rng.choice([-2, -1, 1, 3])
+        s = dict(g)
+        s.update(op="lin_equiv", D1=d1, D2=d2, _pair=kind)
+        r = rng.random()
+        if r < 0.35:
+            s["edges2"] = gen.present_edges(rng, E)          # equal copy, built separately
+            s["_second"] = "equalcopy"
+        elif r < 0.45:
+            E2 = dict(E)
+            e = rng.choice(list(E2))
+            E2[e] += 1
+            s["edges2"] = gen.present_edges(rng, E2)
+            s["_second"] = "othergraph"
+        else:
+            s["_second"] = "sameobject"
+        out.append(s)
+    return out
+
+
+def gen_rank(rng, N, nmax=5, maxdeg=6):
+    out = []
+    for _ in range(N):
+        g, E = gen.gen_graph(rng, 2, nmax)
+        n = g["n"]
+        gen_ = g["_genus"]
+        band = rng.choice(["neg", "low", "mid", "mid", "high"])
+        d, band, debt = gen.gen_divisor(rng, n, gen_, band=band, mag=3)
+        if sum(d) > maxdeg:
+            d[rng.randrange(n)] -= sum(d) - maxdeg
+        s = dict(g)
+        s.update(op="rank", deg=d, opt=rng.random() < 0.6, pool=rng.choice(["stub", "stub", "stub", "thread"]),
+                 via_r=rng.random() < 0.3, _band=gen.band_of(sum(d), gen_), _debt=debt)
+        out.append(s)
+    return out
+
+
+def gen_gonality(rng, N, nmax=5):
+    out = []
+    for _ in range(N):
+        g, E = gen.gen_graph(rng, 2, nmax)
+        n = g["n"]
+        s = dict(g)
+        s.update(op="gonality", strat=rng.random() < 0.5, max=rng.choice([None, None, 0, 1, 2, n - 1, n, n + 1]))
+        out.append(s)
+    return out
+
+
+def gen_play(rng, N, nmax=6):
+    out = []
+    for _ in range(N):
+        g, E = gen.gen_graph(rng, 2, nmax)
+        n = g["n"]
+        P = [rng.randint(0, 2) if rng.random() < 0.85 else rng.randint(-2, 3) for _ in range(n)]
+        nchips = sum(P) if rng.random() < 0.9 else sum(P) + rng.choice([-1, 1])
+        s = dict(g)
+        s.update(op="play", P=P, nchips=nchips, v=rref(rng, n, 0.05))
+        out.append(s)
+    return out
+
+
+def gen_dhar_strategy(rng, N, nmax=6):
+    out = []
+    for _ in range(N):
+        g, E = gen.gen_graph(rng, 2, nmax)
+        n = g["n"]
+        q = rng.randrange(n)
+        others = [v for v in range(n) if v != q]
+        strat = [rng.choice(others) for _ in range(rng.randint(0, n))]
+        if rng.random() < 0.1:
+            strat.append(rng.choice([q, n + 1]))
+        base = [0] * n if rng.random() < 0.7 else [rng.randint(-1, 2) for _ in range(n)]
+        s = dict(g)
+        s.update(op="dhar_strategy", q=q, base=base, strategy=strat)
+        out.append(s)
+    return out
+
+
+def gen_enhanced_dhar(rng, N, nmax=5):
+    out = []
+    for _ in range(N):
+        g, E = gen.gen_graph(rng, 2, nmax)
+        n = g["n"]
+        s = dict(g)
+        s.update(op="enhanced_dhar", q=rng.randrange(n), max=rng.choice([None, None, None, 0, 1, 2, n]))
+        out.append(s)
+    return out
+
+
+def gen_greedy(rng, N, nmax=6):
+    out = []
+    for _ in range(N):
+        g, E = gen.gen_graph(rng, 2, nmax)
+        n = g["n"]
+        d, band, debt = gen.gen_divisor(rng, n, g["_genus"], mag=rng.choice([3, 6, 12]))
+        s = dict(g)
+        s.update(op="greedy", deg=d, _band=gen.band_of(sum(d), g["_genus"]), _debt=debt)
+        out.append(s)
+    return out
